@@ -400,7 +400,7 @@ def _interval_to_vevent(item: Interval | RecurringPattern[Any]) -> Event:
         ("location", "location"),
     ]:
         val = meta.get(key)
-        if val:
+        if val is not None:
             event.add(prop, val)
 
     return event
